@@ -1,6 +1,7 @@
 """C11 - Scaling-and-squaring equals the closed form for affine velocity fields."""
 from __future__ import annotations
 
+import inspect
 import math
 
 import numpy as np
@@ -13,7 +14,7 @@ from vlib.core import Facet, Skip, Violation, check_close, eps_of
 
 PROPERTY = "C11"
 MANIFEST = {
-    "text": "Generated-input search (Hypothesis) over dimensions, shapes, conventions, constructed invariant affine generators, steps, scales, dtypes and batch sizes against the closed form (I+sH/2^k)^(2^k) computed in float64 numpy, plus metamorphic equivalences (inverse flag / negated field / negated scale, ExpFlow and SVF-transform forms), a convergence bound to expm and a derived second-order bound for smooth fields. Exploration: no absence proof; the closed form pins every grid point to ~1e-14 (f64) so discrete convention/scaling errors are orders of magnitude above the bound.",
+    "text": "Generated-input search (Hypothesis) over dimensions, shapes, conventions, constructed invariant affine generators, steps, scales, dtypes and batch sizes against the closed form (I+sH/2^k)^(2^k) computed in float64 numpy, plus metamorphic equivalences (inverse flag / negated field / negated scale, ExpFlow and SVF-transform forms), a convergence bound to expm and a derived second-order bound for smooth fields. Every call of expv / ExpFlow / ExpFlow.forward is made in a generated argument form (keywords, positional in the documented order, documented defaults omitted) and the documented positional order is compared with the live signature; calls are preceded (generated) by in-place modification of Grid.coords() tensors of a grid of the same shape and of the result of an earlier identical call, which must not change the result. Exploration: no absence proof; the closed form pins every grid point to ~1e-14 (f64) so discrete convention/scaling errors are orders of magnitude above the bound.",
     "note": "Trusted: numpy/scipy matrix_power and expm, the reference construction of normalised sample coordinates in props/c11.py; CPU only; float32/float64; shapes <= 12 (2-D) / 9 (3-D) per axis for the closed form.",
     "technique": "property-based testing (Hypothesis) with a closed-form reference model and metamorphic relations",
 }
@@ -21,11 +22,173 @@ ASSUMPTIONS = [
     "affine generators are constructed (not filtered) so that the hull of the sample coordinates is invariant",
     "smooth-field inverse bound err <= 3 a^2 D (pi w/(n-1))^2 + floor is derived from the linear-interpolation error "
     "of each squaring step (see run_smooth); measured values on the pinned tree are <= 0.4 of it",
+    "documented positional order = order of the 'Args:' sections of the docstrings = the literal lists in SIGNATURES "
+    "(identical to the signatures of the pinned tree); positional calls are built from these lists, and a live signature "
+    "that no longer starts with them (or makes one of them keyword-only) is reported as signature_changed:<function>; "
+    "additional trailing parameters with defaults are accepted",
+    "documented defaults (literal DEFAULTS): an argument equal to its default may be omitted; steps=None means 5 "
+    "squaring steps and scale=None means 1 (ExpFlow docstring 'Default is 1'; expv / ExpFlow code), so steps=5 and "
+    "scale=1 may be omitted as well; 'linear' / 'border' are the string forms of the default sampling / padding",
+    "tensors returned by Grid.coords(), expv() and ExpFlow belong to the caller, who may modify them in place (the idiom "
+    "x = grid.coords(...); x.unsqueeze_(0).add_(flow) of the repository's example scripts); the only documented alias is "
+    "expv(steps=0), which may return its argument; inverse=True is generated in closed_form only together with the "
+    "negated scale, because the constructed generator is invariant only for a non-negative effective factor",
 ]
 
 
 # ---------------------------------------------------------------------------------------
 # helpers
+
+# ---------------------------------------------------------------------------------------
+# argument forms: documented positional order and defaults of the functions of C11 / C13 (shared with props/c13.py)
+
+# Order of the parameters as documented (the "Args:" sections of the docstrings list them in exactly this order on
+# the pinned tree).  A positional call is built from THIS list, never from the live signature.
+SIGNATURES = {
+    "expv": ["flow", "scale", "steps", "sampling", "padding", "align_corners", "inverse"],
+    "compose_flows": ["u", "v", "align_corners"],
+    "compose_svfs": ["u", "v", "mode", "sigma", "spacing", "stride", "bch_terms"],
+    "lie_bracket": ["v", "u", "mode", "sigma", "spacing", "stride"],
+    "logv": ["flow", "num_iters", "bch_terms", "sigma", "spacing", "exp_steps", "sampling", "padding", "align_corners"],
+    "ExpFlow": ["scale", "steps", "align_corners"],
+    "ExpFlow.forward": ["x", "inverse"],
+}
+# Documented defaults of the optional parameters (an argument equal to its default may be omitted: form "omit").
+DEFAULTS = {
+    "expv": {"scale": None, "steps": None, "sampling": "linear", "padding": "border", "align_corners": True, "inverse": False},
+    "compose_flows": {"align_corners": True},
+    "compose_svfs": {"mode": None, "sigma": None, "spacing": None, "stride": None, "bch_terms": 3},
+    "lie_bracket": {"mode": None, "sigma": None, "spacing": None, "stride": None},
+    "logv": {"num_iters": 5, "bch_terms": 1, "sigma": 1.0, "spacing": None, "exp_steps": None, "sampling": "linear",
+             "padding": "border", "align_corners": True},
+    "ExpFlow": {"scale": None, "steps": None, "align_corners": True},
+    "ExpFlow.forward": {"inverse": False},
+}
+# values that mean the same as the default (expv / ExpFlow / logv: steps=None is 5 squaring steps, scale=None is 1)
+DEFAULT_ALIASES = {
+    ("expv", "steps"): 5, ("ExpFlow", "steps"): 5, ("logv", "exp_steps"): 5,
+    ("expv", "scale"): 1, ("ExpFlow", "scale"): 1,
+}
+FORMS = ["kw", "pos", "omit"]
+_SIGNATURE_OK = {}
+
+
+def forms():
+    """Strategy: how the optional arguments are passed: by keyword, positionally in documented order, or omitted
+    wherever they equal the documented default."""
+    return st.sampled_from(FORMS)
+
+
+def check_signature(name: str, fn) -> None:
+    """The documented parameters must still come first, in the documented order, and be passable positionally;
+    additional trailing parameters need defaults."""
+    if _SIGNATURE_OK.get(name) is fn:
+        return
+    pinned = SIGNATURES[name]
+    params = list(inspect.signature(fn).parameters.values())
+    live = [p.name for p in params]
+    ok = live[:len(pinned)] == pinned
+    ok = ok and all(p.kind in (p.POSITIONAL_ONLY, p.POSITIONAL_OR_KEYWORD) for p in params[:len(pinned)])
+    ok = ok and all(p.default is not p.empty or p.kind in (p.VAR_POSITIONAL, p.VAR_KEYWORD) for p in params[len(pinned):])
+    if not ok:
+        raise Violation(f"signature_changed:{name}", f"parameters of {name} are {live}, documented positional order is {pinned}")
+    _SIGNATURE_OK[name] = fn
+
+
+def _is_default(name: str, key: str, value) -> bool:
+    d = DEFAULTS[name][key]
+    if isinstance(value, (torch.Tensor, list, tuple)):
+        return False
+    if value is d or (type(value) is type(d) and value == d):
+        return True
+    alias = DEFAULT_ALIASES.get((name, key))
+    return alias is not None and isinstance(value, (int, float)) and not isinstance(value, bool) and value == alias
+
+
+def invoke(name: str, fn, form: str, args, given: dict, sig_of=None):
+    """Call fn(*args, <given>) in the generated argument form.
+
+    kw: fn(*args, **given).  omit: as kw, arguments equal to the documented default left out.  pos: all arguments
+    positional in the documented order up to the last one given; documented defaults for those in between."""
+    check_signature(name, fn if sig_of is None else sig_of)
+    if form == "kw":
+        return fn(*args, **given)
+    if form == "omit":
+        return fn(*args, **{k: v for k, v in given.items() if not _is_default(name, k, v)})
+    if form != "pos":
+        raise ValueError(form)
+    opt = SIGNATURES[name][len(args):]
+    unknown = [k for k in given if k not in opt]
+    if unknown:
+        raise ValueError(f"{name}: not documented parameters {unknown}")
+    last = max((opt.index(k) for k in given), default=-1)
+    pos = [given[k] if k in given else DEFAULTS[name][k] for k in opt[:last + 1]]
+    return fn(*args, *pos)
+
+
+# ---------------------------------------------------------------------------------------
+# shared state: callers may do anything with tensors they were handed
+
+
+def pollute_coords(shape, ac: bool, dt, mode) -> None:
+    """Before the call under test: take Grid.coords() of a grid of the same shape and modify the returned tensor in
+    place (the idiom `x = grid.coords(...); x.unsqueeze_(0).add_(flow)`).  A function of the properties builds its
+    sampling points from Grid.coords() of a grid of that shape; its result must not depend on what other callers did
+    with *their* coordinates.  mode: None (nothing), 'cl' / 'cf' (only the variant with the convention and dtype of the
+    call under test, channels last / first), 'axes' (the 1-D per-axis forms), 'sweep' (every variant; the matching
+    ones last)."""
+    if not mode:
+        return
+    from deepali.core import Grid
+
+    D = len(shape)
+
+    def spoil(x):
+        if x.is_floating_point():
+            x.unsqueeze_(0).mul_(-0.5).add_(0.375)
+        else:
+            x.unsqueeze_(0).mul_(-3).add_(7)
+
+    def matched(which):
+        g = Grid(shape=shape, align_corners=ac)
+        for cl in which:
+            spoil(g.coords(channels_last=cl, dtype=dt))
+            spoil(Grid(shape=shape, align_corners=not ac).coords(align_corners=ac, channels_last=cl, dtype=dt))
+
+    if mode == "cl":
+        matched([True])
+    elif mode == "cf":
+        matched([False])
+    elif mode == "axes":
+        for a in (ac, not ac):
+            g = Grid(shape=shape, align_corners=a)
+            for d in range(D):
+                for t in (dt, torch.float32):
+                    spoil(g.coords(dim=d, dtype=t))
+                spoil(g.coords(dim=d, normalize=False, center=True))
+    else:
+        for a in (not ac, ac):
+            g = Grid(shape=shape, align_corners=a)
+            spoil(g.coords())
+            spoil(g.coords(normalize=False))
+            spoil(g.coords(normalize=False, center=True, dtype=dt))
+            for t in (torch.float64, torch.float32):
+                for cl in (False, True):
+                    for flip in (True, False):
+                        spoil(g.coords(channels_last=cl, flip=flip, dtype=t))
+            for d in range(D):
+                spoil(g.coords(dim=d, dtype=dt))
+        matched([False, True])
+
+
+def pollutions():
+    return st.sampled_from([None, None, "cl", "cf", "axes", "sweep"])
+
+
+def spoil_result(t: torch.Tensor) -> None:
+    """In-place modification of a tensor returned by an earlier call (its owner may do that)."""
+    t.mul_(-3.0).add_(0.625)
+
 
 
 def cube_axis(n: int, ac: bool) -> np.ndarray:
@@ -91,6 +254,9 @@ def closed_form_cases(draw):
         "dtype": draw(gen.dtypes()),
         "N": draw(st.integers(1, 3)),
         "via": draw(st.sampled_from(["expv", "expv", "ExpFlow", "svf"])),
+        "form": draw(forms()), "pollute": draw(pollutions()),
+        # inverse=True together with the negated scale (the generator is only invariant for the effective factor >= 0)
+        "inverse": draw(st.booleans()), "repeat": draw(st.sampled_from([False, False, True])),
     }
     return case
 
@@ -115,24 +281,49 @@ def run_closed_form(case):
         steps = min_steps(H, s, steps)
         fields.append(affine_field(H, x))
     v = torch.tensor(np.stack(fields, 0), dtype=dt)
+    v0 = v.clone()
     via = case["via"]
-    if via == "expv":
-        kw = {} if scale is None else {"scale": scale}
-        out = U.expv(v, steps=steps, align_corners=ac, **kw)
-    elif via == "ExpFlow":
-        out = ExpFlow(scale=scale, steps=steps, align_corners=ac)(v)
-    else:
+    form = case.get("form", "kw")
+    inverse = bool(case.get("inverse")) and scale is not None and via != "svf"
+    arg_scale = -scale if inverse else scale
+    if via == "svf":
+        eps = eps_of(torch.float32)
+    pollute_coords(shape, ac, torch.float32 if via == "svf" else dt, case.get("pollute"))
+
+    def compute(vin):
+        if via == "expv":
+            given = {"steps": steps, "align_corners": ac}
+            if scale is not None:
+                given["scale"] = arg_scale
+            if inverse:
+                given["inverse"] = True
+            return invoke("expv", U.expv, form, [vin], given)
+        if via == "ExpFlow":
+            m = invoke("ExpFlow", ExpFlow, form, [], {"scale": arg_scale, "steps": steps, "align_corners": ac})
+            return invoke("ExpFlow.forward", m, form, [vin], {"inverse": True} if inverse else {}, sig_of=m.forward)
         from deepali.core import Grid
         from deepali.spatial import StationaryVelocityFieldTransform
 
         grid = Grid(shape=shape, align_corners=ac)
-        t = StationaryVelocityFieldTransform(grid, groups=N, params=v.float(), scale=scale, steps=steps)
+        t = StationaryVelocityFieldTransform(grid, groups=N, params=vin.float(), scale=scale, steps=steps)
         t.update()
-        out = t.u
-        check_close(t.v, v.float(), 0.0, "svf_v_buffer", "buffer v of SVF transform != its parameters")
-        eps = eps_of(torch.float32)
-        if out.shape != v.shape:
-            raise Violation("svf_u_shape", f"u buffer shape {tuple(out.shape)} != {tuple(v.shape)}")
+        check_close(t.v, vin.float(), 0.0, "svf_v_buffer", "buffer v of SVF transform != its parameters")
+        if t.u.shape != vin.shape:
+            raise Violation("svf_u_shape", f"u buffer shape {tuple(t.u.shape)} != {tuple(vin.shape)}")
+        return t.u
+
+    snap = None
+    if case.get("repeat"):
+        # a caller of an earlier, identical call modifies *its* result in place; the call under test must not notice
+        first = compute(v.clone())
+        snap = first.detach().clone()
+        spoil_result(first.detach())
+    out = compute(v)
+    if not torch.equal(v, v0):
+        raise Violation("input_modified", f"expv via {via} modified its input")
+    if snap is not None:
+        check_close(out, snap, 2 * eps * max(1.0, float(snap.abs().max())), "result_depends_on_earlier_result",
+                    f"expv via {via}: same input, different result after the result of the first call was modified in place")
     if out.shape != v.shape or (via != "svf" and out.dtype != v.dtype):
         raise Violation("shape_dtype", f"result {tuple(out.shape)} {out.dtype} for input {tuple(v.shape)} {v.dtype}")
     worst = 0.0
@@ -148,7 +339,8 @@ def run_closed_form(case):
     offd = any(abs(case["M"][i * D + j]) > 0.02 for i in range(D) for j in range(D) if i != j)
     return {"ratio": worst, "nontrivial": offd and steps >= 2 and len(set(shape)) > 1,
             "labels": [f"via={via}", f"ac={ac}", case["dtype"], f"steps={steps}", f"N={N}", f"D={D}",
-                       "scale=default" if scale is None else "scale=given"]}
+                       "scale=default" if scale is None else "scale=given", f"form={form}", f"inverse={inverse}",
+                       f"pollute={case.get('pollute')}", f"repeat={bool(case.get('repeat'))}"]}
 
 
 # ---------------------------------------------------------------------------------------
@@ -165,6 +357,7 @@ def equiv_cases(draw):
         "amp": draw(gen.qfloat(0.0, 0.6, 0.01)), "key": draw(st.integers(0, 10 ** 6)),
         "dtype": draw(gen.dtypes()),
         "content": draw(st.sampled_from(["noise", "smooth"])),
+        "form": draw(forms()), "pollute": draw(pollutions()),
     }
 
 
@@ -185,29 +378,61 @@ def run_equiv(case):
     v = make_field(case)
     ac, steps, scale = case["ac"], case["steps"], case["scale"]
     s = 1.0 if scale is None else scale
-    kw = {} if scale is None else {"scale": scale}
+    form = case.get("form", "kw")
+    kw = {"steps": steps, "align_corners": ac}
+    if scale is not None:
+        kw["scale"] = scale
     tol = 8 * eps_of(v.dtype) * max(1.0, float(v.abs().max()) * abs(s))
     v0 = v.clone()
-    fwd = U.expv(v, steps=steps, align_corners=ac, **kw)
-    inv = U.expv(v, steps=steps, align_corners=ac, inverse=True, **kw)
-    inv_neg = U.expv(-v, steps=steps, align_corners=ac, **kw)
-    inv_scale = U.expv(v, scale=-s, steps=steps, align_corners=ac)
+    pollute_coords(case["shape"], ac, v.dtype, case.get("pollute"))
+
+    def expv(f, **given):
+        return invoke("expv", U.expv, form, [f], given)
+
+    def module():
+        return invoke("ExpFlow", ExpFlow, form, [], {"scale": scale, "steps": steps, "align_corners": ac})
+
+    def fw(mod, f, **given):
+        return invoke("ExpFlow.forward", mod, form, [f], given, sig_of=mod.forward)
+
+    fwd = expv(v, **kw)
+    inv = expv(v, inverse=True, **kw)
+    inv_neg = expv(-v, **kw)
+    inv_scale = expv(v, **dict(kw, scale=-s))
+    fwd_false = expv(v, inverse=False, **kw)
     check_close(inv, inv_neg, tol, "inverse_vs_negated_field", "expv(v, inverse=True) != expv(-v)")
     check_close(inv, inv_scale, tol, "inverse_vs_negated_scale", "expv(v, inverse=True) != expv(v, scale=-scale)")
+    check_close(fwd_false, fwd, tol, "inverse_false_vs_omitted", "expv(v, inverse=False) != expv(v)")
     if steps == 0:
         check_close(fwd, v0.double() * s, tol, "steps0", "steps=0 must return scale*v")
         check_close(inv, -v0.double() * s, tol, "steps0_inverse", "steps=0, inverse must return -scale*v")
     if not torch.equal(v, v0):
         raise Violation("input_modified", "expv modified its input")
-    m = ExpFlow(scale=scale, steps=steps, align_corners=ac)
-    check_close(m(v), fwd, tol, "module_forward", "ExpFlow()(v) != expv(v)")
-    check_close(m(v, inverse=True), inv, tol, "module_forward_inverse", "ExpFlow()(v, inverse=True) != expv(v, inverse=True)")
+    m = module()
+    check_close(fw(m, v), fwd, tol, "module_forward", "ExpFlow()(v) != expv(v)")
+    check_close(fw(m, v, inverse=True), inv, tol, "module_forward_inverse", "ExpFlow()(v, inverse=True) != expv(v, inverse=True)")
+    check_close(fw(m, v, inverse=False), fwd, tol, "module_forward", "ExpFlow()(v, inverse=False) != expv(v)")
     check_close(m.inverse()(v), inv, tol, "module_inverse", "ExpFlow().inverse()(v) != expv(v, inverse=True)")
     check_close(m.inv(v), inv, tol, "module_inv", "ExpFlow().inv(v) != expv(v, inverse=True)")
     check_close(m.inverse().inverse()(v), fwd, tol, "module_inverse_twice", "inverse of inverse != forward")
     check_close(m(v), fwd, tol, "module_mutated_by_inverse", "ExpFlow changed by taking its inverse")
+    if not torch.equal(v, v0):
+        raise Violation("input_modified", "ExpFlow modified its input")
+    # results handed out earlier belong to the caller: modifying them in place must not change later results
+    # (steps=0 with scale 1 documents that the input itself is returned, hence the fresh copies)
+    fwd_snap, inv_snap = fwd.clone(), inv.clone()
+    for r in (fwd, inv, inv_neg, inv_scale, fwd_false):
+        if r.data_ptr() != v.data_ptr():
+            spoil_result(r)
+    check_close(expv(v.clone(), **kw), fwd_snap, tol / 4, "result_depends_on_earlier_result",
+                "expv(v): same input, different result after earlier results were modified in place")
+    check_close(fw(m, v.clone(), inverse=True), inv_snap, tol, "result_depends_on_earlier_result",
+                "ExpFlow()(v, inverse=True): same input, different result after earlier results were modified in place")
+    if not torch.equal(v, v0):
+        raise Violation("input_modified", "input shares memory with a returned tensor that is not documented to be the input")
     nz = bool(v.abs().max() > 1e-3)
-    return {"nontrivial": nz and steps >= 1, "labels": [f"steps={steps}", f"ac={ac}", case["content"], case["dtype"]]}
+    return {"nontrivial": nz and steps >= 1, "labels": [f"steps={steps}", f"ac={ac}", case["content"], case["dtype"], f"form={form}",
+                                                         f"pollute={case.get('pollute')}"]}
 
 
 # ---------------------------------------------------------------------------------------
